@@ -23,4 +23,13 @@ for rel, cls in (("beyond/propagators/sgp4beta.py", "WGS72Old"), ("beyond/propag
     c = repo.cls(rel, cls)
     out[f"{rel}::{cls}"] = dict(literal_multiset(c.node))
 DATA.write_text(json.dumps(out, indent=1, sort_keys=True))
+from bvstatic.frozen import formula_fingerprints, FP_DATA
+fp = {}
+for rel, q in TARGETS + [("beyond/frames/iau2010.py", "_xys"), ("beyond/frames/iau2010.py", "precesion_nutation"), ("beyond/frames/iau1980.py", "rate"), ("beyond/frames/iau2010.py", "rate"),
+                         ("beyond/dates/date.py", "Timescale._scale_tdb_minus_tt"), ("beyond/frames/lagrange.py", "LagrangePropagator.propagate")]:
+    setter = q.endswith(":setter")
+    f = repo.func(rel, q.replace(":setter", ""), setter=setter)
+    fp[f"{rel}::{q}"] = formula_fingerprints(f.node)
+FP_DATA.write_text(json.dumps(fp, indent=0))
+print("formulas:", {k: len(v) for k, v in fp.items()})
 print("written", DATA, {k: sum(v.values()) for k, v in out.items()})
